@@ -35,7 +35,7 @@ type tierPlan struct {
 
 func plan(c *kit.Ctx) tierPlan {
 	if c.Thorough() {
-		return tierPlan{stress: 60000, workers: 5, windows: 40 * len(winCombos), seq: 3000, reest: 1500, gc: 6000}
+		return tierPlan{stress: 100000, workers: 6, windows: 40 * len(winCombos), seq: 3000, reest: 1500, gc: 6000}
 	}
 	return tierPlan{stress: 2400, workers: 4, windows: 4 * len(winCombos), seq: 200, reest: 90, gc: 400}
 }
@@ -293,6 +293,7 @@ func flush(s *sink, lr *linResult, qs *quiesceStats, ops map[string]int64) {
 	s.Count("porcupine.illegal", int64(lr.illegal))
 	s.Count("porcupine.unknown", int64(lr.unknown))
 	s.Count("porcupine.skipped", int64(lr.skipped))
+	s.Count("porcupine.unknown_resolved_linearizable_by_exact_sweep", int64(lr.unknownResolved))
 	s.Count("quiescence.incarnations_checked", qs.checks)
 	s.Count("quiescence.live_registrations_seen", qs.liveRegs)
 	s.Count("quiescence.watches_lost_with_informer_pending", qs.lostPending)
